@@ -410,6 +410,8 @@ impl<T: Payload> World<T> {
         self.log.u8(out.class as u8);
         if state_changing {
             // invariants and refinement after every step, including refused and panicked ones
+            // did the call itself leave the model behind (wrong outcome class, illegal allocation)?
+            let model_in_step = !self.diverged;
             let before = out.viols.len();
             self.check_invariants(&mut out.viols);
             let inv_ok = out.viols.len() == before;
@@ -417,7 +419,9 @@ impl<T: Payload> World<T> {
                 // a malformed or cyclic forest: no further call is issued on this arena
                 self.diverged = true;
             }
-            if !self.diverged {
+            if model_in_step {
+                // refinement is evaluated whether or not the structural invariants hold: a call
+                // that corrupts the forest also fails to do what its own property documents
                 let b2 = out.viols.len();
                 self.cmp_forest(op, out.class, &mut out.viols);
                 if out.viols.len() != b2 {
@@ -425,7 +429,7 @@ impl<T: Payload> World<T> {
                     self.diverged = true;
                 }
             }
-            if !self.diverged {
+            if model_in_step && inv_ok {
                 self.check_tombs(&mut out.viols);
                 self.check_c06(&mut out.viols);
                 self.check_ledger_live(&mut out.viols);
@@ -477,6 +481,9 @@ impl<T: Payload> World<T> {
             }
             if self.m.chains.values().any(|c| c.len() >= 3) {
                 self.stats.probe("toplevel_chain_len_ge_3");
+            }
+            if self.m.n_live >= 100 && self.step_no % 16 == 0 {
+                self.scale_probes();
             }
         } else {
             *self
@@ -1003,6 +1010,9 @@ impl<T: Payload> World<T> {
                 if !self.m.n(*x).kids.is_empty() && self.m.parent(*x).is_none() {
                     self.stats.probe("remove_toplevel_with_children");
                 }
+                if self.m.n(*x).kids.len() >= 128 {
+                    self.stats.probe("scale_remove_node_with_ge_128_children");
+                }
                 let mark = payload::ledger_mark();
                 let r = catch(|| id.remove(&mut self.arena));
                 match r {
@@ -1024,6 +1034,9 @@ impl<T: Payload> World<T> {
                 let sub = self.m.subtree(*x);
                 if sub.len() >= 3 {
                     self.stats.probe("remove_subtree_ge_3_nodes");
+                }
+                if sub.len() >= 130 {
+                    self.stats.probe("scale_remove_subtree_ge_130_nodes");
                 }
                 let serials: Vec<Option<u64>> = sub.iter().map(|k| self.m.n(*k).serial).collect();
                 let mark = payload::ledger_mark();
@@ -1217,6 +1230,32 @@ impl<T: Payload> World<T> {
                 }
             }
             _ => unreachable!(),
+        }
+    }
+
+    fn scale_probes(&mut self) {
+        let m = &self.m;
+        let maxkids = m.nodes.values().filter(|n| n.live).map(|n| n.kids.len()).max().unwrap_or(0);
+        let maxdepth = m.nodes.iter().filter(|(_, n)| n.live && n.kids.is_empty()).map(|(k, _)| m.depth(*k)).max().unwrap_or(0);
+        let maxchain = m.chains.values().map(|c| c.len()).max().unwrap_or(0);
+        let (nl, nf) = (m.n_live, m.free.len());
+        if maxkids >= 128 {
+            self.stats.probe("scale_node_with_ge_128_children");
+        }
+        if maxdepth >= 128 {
+            self.stats.probe("scale_depth_ge_128");
+        }
+        if maxdepth >= 256 {
+            self.stats.probe("scale_depth_ge_256");
+        }
+        if maxchain >= 32 {
+            self.stats.probe("scale_toplevel_chain_ge_32");
+        }
+        if nl >= 200 {
+            self.stats.probe("scale_live_ge_200");
+        }
+        if nf >= 64 {
+            self.stats.probe("scale_free_set_ge_64");
         }
     }
 
